@@ -755,3 +755,171 @@ pub fn replay(kind: &str, case_json: &Value, st: &mut Stats) -> CheckResult {
         _ => Err(Fail::Inconclusive(format!("unknown replay kind {kind}"))),
     }
 }
+
+// ---------------------------------------------------------------------------------------------
+// C11, overlapping half: AddSnapshot overlapping GetSnapshot and AddVersion under the scheduler
+
+/// The C11 oracle on one scheduled execution: every GetSnapshot answer is an (id, bytes) pair
+/// from one upload that was or is being accepted - never a mix, never an error - and the snapshot
+/// left behind is a usable base.
+pub fn c11_judge(cc: &CCase, ex: &mut Exec, st: &mut Stats) -> CheckResult {
+    st.check();
+    let what = describe(cc, ex);
+    // uploads: the snapshot before the batch plus every AddSnapshot of the batch
+    let mut pairs: Vec<(Uuid, u64)> = vec![];
+    if let Some(s) = &ex.start.snap {
+        pairs.push((s.version, hash_bytes(&s.data)));
+    }
+    for (t, reqs) in cc.batch.iter().enumerate() {
+        for (k, r) in reqs.iter().enumerate() {
+            if let (BReq::AddSnapshot { .. }, Some((id, data, _))) = (r, ex.results[t].get(k)) {
+                pairs.push((*id, hash_bytes(data)));
+            }
+        }
+    }
+    for (t, reqs) in cc.batch.iter().enumerate() {
+        for (k, r) in reqs.iter().enumerate() {
+            let Some((_, _, out)) = ex.results[t].get(k) else { continue };
+            if let BReq::GetSnapshot = r {
+                match out {
+                    Outcome::Snapshot { id, data } => {
+                        if !pairs.contains(&(*id, hash_bytes(data))) {
+                            return v(format!("GetSnapshot T{t}.{k} returned ({id}, {} bytes) which is not the id and bytes of one upload: {what}", data.len()));
+                        }
+                    }
+                    Outcome::NoSnapshot | Outcome::NoSuchClient => {
+                        if ex.start.snap.is_some() {
+                            return v(format!("GetSnapshot T{t}.{k} answered {} although a snapshot had been accepted before: {what}", out.short()));
+                        }
+                    }
+                    o => return v(format!("GetSnapshot T{t}.{k} overlapping AddSnapshot/AddVersion was answered {}: {what}", o.short())),
+                }
+            }
+        }
+    }
+    // afterwards: the stored snapshot is one upload and a usable base
+    let c = ex.hist.clients[0];
+    match ex.hist.drv.get_snapshot(c) {
+        Outcome::Snapshot { id, data } => {
+            if !pairs.contains(&(id, hash_bytes(&data))) {
+                return v(format!("after the batch GetSnapshot returns ({id}, {} bytes), not the id and bytes of one upload: {what}", data.len()));
+            }
+            let mut p = id;
+            let mut n = 0;
+            loop {
+                match ex.hist.drv.get_child(c, p) {
+                    Outcome::Found { id, .. } => {
+                        p = id;
+                        n += 1;
+                        if n > 100 {
+                            return v(format!("walk from the snapshot does not end: {what}"));
+                        }
+                    }
+                    Outcome::NotFound => break,
+                    o => return v(format!("after the batch, walking from snapshot version {id} was answered {} at {p}: {what}", o.short())),
+                }
+            }
+        }
+        Outcome::NoSnapshot | Outcome::NoSuchClient => {
+            if ex.start.snap.is_some() {
+                return v(format!("after the batch the snapshot is gone: {what}"));
+            }
+        }
+        o => return v(format!("after the batch GetSnapshot answered {}: {what}", o.short())),
+    }
+    let b = &ex.log.blocks;
+    let interleaved = (0..cc.batch.len()).any(|t| {
+        let pos: Vec<usize> = b.iter().enumerate().filter(|(_, x)| **x == t).map(|(i, _)| i).collect();
+        matches!((pos.first(), pos.last()), (Some(f), Some(l)) if b[*f..=*l].iter().any(|x| *x != t))
+    });
+    st.label(&format!("c11:overlap:{:?}/{:?}", cc.conf, cc.via));
+    let kinds: Vec<Vec<&str>> = cc.batch.iter().map(|t| t.iter().map(|r| r.kind()).collect()).collect();
+    if interleaved || b.len() >= 3 {
+        st.nontrivial(&("c11-overlap", cc.conf, cc.via, kinds, b.clone(), ex.start.snap.is_some()));
+    }
+    Ok(())
+}
+
+fn c11_all_schedules(base: &CCase, st: &mut Stats) -> CheckResult {
+    let mut prefix: Vec<u16> = vec![];
+    let mut runs = 0usize;
+    loop {
+        let mut cc = base.clone();
+        cc.choices = prefix.clone();
+        let mut ex = execute(&cc)?;
+        if let Some(m) = &ex.log.inconclusive {
+            return Err(Fail::Inconclusive(format!("scheduler: {m}")));
+        }
+        let mut taken = ex.log.decisions.clone();
+        c11_judge(&cc, &mut ex, st).map_err(|f| match f {
+            Fail::Violation(m) => Fail::Violation(format!("schedule {:?}: {m}", cc.choices)),
+            o => o,
+        })?;
+        runs += 1;
+        if runs > 3000 {
+            return Err(Fail::Inconclusive("more than 3000 schedules".into()));
+        }
+        loop {
+            match taken.pop() {
+                None => return Ok(()),
+                Some((width, idx)) => {
+                    if idx + 1 < width {
+                        prefix = taken.iter().map(|(_, i)| *i as u16).collect();
+                        prefix.push((idx + 1) as u16);
+                        break;
+                    }
+                }
+            }
+        }
+    }
+}
+
+fn c11_batches(tier: Tier) -> Vec<CCase> {
+    let prefix_with_snap = vec![
+        Op::AddVersion { c: 0, parent: case::IdRef::Nil, data: bs(10) },
+        Op::AddVersion { c: 0, parent: case::IdRef::Latest(0), data: bs(11) },
+        Op::AddSnapshot { c: 0, version: case::IdRef::Ancestor(0, 1), data: bs(12) },
+        Op::AddVersion { c: 0, parent: case::IdRef::Latest(0), data: bs(13) },
+    ];
+    let prefix_no_snap = vec![Op::AddVersion { c: 0, parent: case::IdRef::Nil, data: bs(10) }, Op::AddVersion { c: 0, parent: case::IdRef::Latest(0), data: bs(11) }];
+    let mut out = vec![];
+    for conf in [Conf::Mem, Conf::Sqlite1, Conf::SqliteN] {
+        for via in [Via::Http, Via::Lib] {
+            for (pi, prefix) in [prefix_with_snap.clone(), prefix_no_snap.clone()].into_iter().enumerate() {
+                let snap = |k: u8, s: u32| BReq::AddSnapshot { version: if k == 0 { BId::Latest } else { BId::Ancestor(k) }, data: bs(s) };
+                let mut batches = vec![
+                    vec![vec![snap(0, 20)], vec![BReq::GetSnapshot]],
+                    vec![vec![snap(1, 21)], vec![BReq::GetSnapshot, BReq::GetSnapshot]],
+                    vec![vec![snap(0, 22)], vec![BReq::GetSnapshot], vec![BReq::AddVersion { parent: BId::Latest, data: bs(23) }]],
+                ];
+                if tier == Tier::Thorough {
+                    batches.push(vec![vec![snap(1, 24), snap(0, 25)], vec![BReq::GetSnapshot, BReq::GetSnapshot]]);
+                    batches.push(vec![vec![snap(0, 26)], vec![snap(1, 27)], vec![BReq::GetSnapshot]]);
+                }
+                for (bi, batch) in batches.into_iter().enumerate() {
+                    if tier == Tier::Quick && conf == Conf::Sqlite1 && (bi == 2 || pi == 1) {
+                        continue;
+                    }
+                    out.push(CCase { conf, via, prefix: prefix.clone(), cfg: Cfg { snapshot_days: 14, snapshot_versions: 2 }, batch, choices: vec![], probes: vec![] });
+                }
+            }
+        }
+    }
+    out
+}
+
+/// Sub-run of the C11 check: all schedules of AddSnapshot overlapping GetSnapshot (and AddVersion).
+pub fn c11_overlap_subrun(rep: &mut Report, tier: Tier) {
+    let r = engine::replay_dir::<CCase, _>("C11", "overlap", c11_all_schedules);
+    rep.absorb("replay-tier-overlap", r);
+    if rep.failed() {
+        return;
+    }
+    let r = engine::enumerate("C11", "overlap", c11_batches(tier), c11_all_schedules);
+    rep.absorb("overlapping-add-snapshot-get-snapshot-all-schedules", r);
+}
+
+pub fn c11_replay(case_json: &Value, st: &mut Stats) -> CheckResult {
+    let cc: CCase = serde_json::from_value(case_json.clone()).map_err(|e| Fail::Inconclusive(format!("bad replay file: {e}")))?;
+    c11_all_schedules(&cc, st)
+}
